@@ -48,7 +48,7 @@ def cases(tier, seed):
     for cls, ml in confs:
         for first in range(len(ops)):
             out.append({"kind": "exh", "cls": cls, "maxlen": ml, "first": first, "L": L})
-    nr = 240 if tier == "quick" else 6000
+    nr = 240 if tier == "quick" else 15000
     per = 20 if tier == "quick" else 32
     for i in range(nr):
         out.append({"kind": "random", "i": i, "seed": seed, "n": per})
